@@ -65,13 +65,16 @@ func TestC18(t *testing.T) {
 		out.Count("chain:" + e.chain)
 		e.k.SetLastObservedBlockHeight(s.Ctx, 1000, uint64(s.Ctx.BlockHeight()))
 		e.round = i
+		e.installHook()
 		out.Reset()
 		e.runBCI(out, i)
 		e.runAtt(out)
 		e.runIBC(out)
 		e.runGov(out)
 		e.runGovBlocks(out)
+		e.runGovHooks(out)
 		e.runXC(out)
+		e.runAttRouter(out)
 	}
 }
 
@@ -769,7 +772,7 @@ func (e *env) ibc(out *hx.Out, sc string, core bool) {
 		ctx, _ = parent.CacheContext()
 		successAck := channeltypes.CommitAcknowledgement(channeltypes.NewResultAcknowledgement([]byte{byte(1)}).Acknowledgement())
 		var ackHash []byte
-		ackOK := false
+		ackOK, ackNone := false, false
 		if core {
 			// the counterparty end committed the packet; core verifies that commitment through the localhost client
 			s.App.IBCKeeper.ChannelKeeper.SetPacketCommitment(ctx, port, srcCh, seq, channeltypes.CommitPacket(s.App.AppCodec(), packet))
@@ -786,10 +789,9 @@ func (e *env) ibc(out *hx.Out, sc string, core bool) {
 			var found bool
 			ackHash, found = s.App.IBCKeeper.ChannelKeeper.GetPacketAcknowledgement(ctx, port, ch, seq)
 			if !found {
-				out.Violate("ibc-recv: core RecvPacket wrote no acknowledgement (" + sc + ")")
-				return
+				ackNone, ackHash = true, nil // the callback handed back no acknowledgement (asynchronous): core committed its branch
 			}
-			ackOK = string(ackHash) == string(successAck)
+			ackOK = found && string(ackHash) == string(successAck)
 			// designated: replay protection receipt + the acknowledgement
 			s.App.IBCKeeper.ChannelKeeper.SetPacketReceipt(bctx, port, ch, seq)
 		} else {
@@ -803,13 +805,19 @@ func (e *env) ibc(out *hx.Out, sc string, core bool) {
 			if ack == nil || ack.Success() {
 				write()
 			}
-			ackOK = ack.Success()
-			ackHash = channeltypes.CommitAcknowledgement(ack.Acknowledgement())
-			s.App.IBCKeeper.ChannelKeeper.SetPacketAcknowledgement(ctx, port, ch, seq, ackHash)
+			if ack == nil {
+				ackNone = true // asynchronous acknowledgement: nothing is written now
+			} else {
+				ackOK = ack.Success()
+				ackHash = channeltypes.CommitAcknowledgement(ack.Acknowledgement())
+				s.App.IBCKeeper.ChannelKeeper.SetPacketAcknowledgement(ctx, port, ch, seq, ackHash)
+			}
 		}
 		after := dumpKV(ctx, e.keys)
 		ctx = ctx.WithConsensusParams(origCp)
-		s.App.IBCKeeper.ChannelKeeper.SetPacketAcknowledgement(bctx, port, ch, seq, ackHash)
+		if !ackNone {
+			s.App.IBCKeeper.ChannelKeeper.SetPacketAcknowledgement(bctx, port, ch, seq, ackHash)
+		}
 		designated := dumpKV(bctx, e.keys)
 		extra := diffKV(after, designated)
 		marks := []string{}
@@ -849,11 +857,25 @@ func (e *env) ibc(out *hx.Out, sc string, core bool) {
 			slotW = true
 		}
 		ackS := map[bool]string{true: "ok", false: "err"}[ackOK]
+		if ackNone {
+			ackS = "none"
+			out.Count("ibc:async-ack")
+		}
 		out.Emit(fmt.Sprintf("pibc %s %d %d %s %s %s", mApp, b01(mFx), b01(mEvm), mConv, mMemo, mCall),
 			fmt.Sprintf("flow=nil ack=%s recv=1 app=%d erc=%d slot=%d", ackS, b01(appW), b01(ercW), b01(slotW)))
 		out.Count("ibc:" + sc)
 		out.Count("ibc:core=" + fmt.Sprint(core))
 		out.Nontrivial(fmt.Sprintf("ibc|%s|core=%v", sc, core))
+		if ackNone {
+			// the fx transfer stack acknowledges synchronously (Props.C18.callback_never_returns_nil); a missing acknowledgement
+			// makes core COMMIT the callback's branch — after a failure that is exactly the partial state the property excludes
+			if expectFail {
+				out.Violate("ibc-recv: follow-up failed (" + sc + ") but NO acknowledgement was returned (asynchronous): core committed the branch of the failed sub-step, writes: " + joinOrDash(categories(extra, e.chain)))
+			} else {
+				out.Violate("ibc-recv: scenario " + sc + " succeeded but no acknowledgement was written (asynchronous acknowledgement from the fx transfer stack)")
+			}
+			return
+		}
 		if expectFail && ackOK {
 			out.Violate("ibc-recv: follow-up failed (" + sc + ") but a success acknowledgement was returned, writes committed: " + joinOrDash(categories(extra, e.chain)))
 		}
@@ -1103,14 +1125,15 @@ func (e *env) gov(out *hx.Out, n, failIdx int, failKind string) {
 type govSpec struct {
 	n, failIdx int
 	kind       string
+	hook       string // "" | "ok" | "fail": what the harness-registered AfterProposalVotingPeriodEnded hook does for this proposal
 }
 
 func (e *env) runGovBlocks(out *hx.Out) {
 	kind := func() string { return govFailKinds[e.rng.Intn(len(govFailKinds))] }
 	n := func() int { return 1 + e.rng.Intn(3) }
 	pos := func(n int) int { return []int{0, n / 2, n - 1}[(e.round+e.rng.Intn(3))%3] } // first / middle / last
-	fail := func() govSpec { m := n(); return govSpec{m, pos(m), kind()} }
-	pass := func() govSpec { return govSpec{n(), -1, ""} }
+	fail := func() govSpec { m := n(); return govSpec{n: m, failIdx: pos(m), kind: kind()} }
+	pass := func() govSpec { return govSpec{n: n(), failIdx: -1} }
 	e.govBlock(out, []govSpec{fail(), pass()})         // fail, then pass
 	e.govBlock(out, []govSpec{pass(), fail()})         // pass, then fail
 	e.govBlock(out, []govSpec{fail(), fail()})         // fail, fail
@@ -1147,6 +1170,16 @@ func (e *env) govBlock(out *hx.Out, specs []govSpec) {
 			contracts  []common.Address
 		}
 		var props []built
+		hooked := false
+		hookMarks := make([]sdk.AccAddress, len(specs))
+		for i, sp := range specs {
+			hookMarks[i] = sdk.AccAddress(e.randAddr().Bytes())
+			hooked = hooked || sp.hook != ""
+		}
+		if hooked {
+			e.hook.funder = sdk.AccAddress(e.randAddr().Bytes())
+			s.MintToken(e.hook.funder, sdk.NewCoin(fxtypes.DefaultDenom, sdkmath.NewInt(1_000_000)))
+		}
 		for _, sp := range specs {
 			var b built
 			for i := 0; i < sp.n; i++ {
@@ -1196,8 +1229,10 @@ func (e *env) govBlock(out *hx.Out, specs []govSpec) {
 			props = append(props, b)
 		}
 		// one block: submit, deposit, vote on every proposal at the same block time, then ONE EndBlocker
-		runBlock := func(ctx sdk.Context, pick func(b built) []sdk.Msg) (kvDump, []govv1.ProposalStatus, string) {
+		runBlock := func(ctx sdk.Context, pick func(b built) []sdk.Msg, ref bool) (kvDump, []govv1.ProposalStatus, string) {
 			gk := s.App.GovKeeper
+			e.hook.reset()
+			defer e.hook.reset()
 			proposer := sdk.AccAddress(s.ValAddr[0])
 			params, err := gk.Params.Get(ctx)
 			if err != nil {
@@ -1206,12 +1241,19 @@ func (e *env) govBlock(out *hx.Out, specs []govSpec) {
 			dep := sdk.NewCoins(params.MinDeposit...).MulInt(sdkmath.NewInt(100))
 			var ids []uint64
 			var end time.Time
-			for _, b := range props {
+			for i, b := range props {
 				s.MintToken(proposer, dep...)
 				p, err := gk.Keeper.SubmitProposal(ctx, pick(b), "", "t", "s", proposer, false)
 				if err != nil {
 					return nil, nil, "submit: " + err.Error()
 				}
+				// the reference run: a failing hook fails WITHOUT writing (its designated outcome)
+				if h := specs[i].hook; h == "fail" && ref {
+					e.hook.mode[p.Id] = "fail-nowrite"
+				} else {
+					e.hook.mode[p.Id] = h
+				}
+				e.hook.mark[p.Id] = hookMarks[i]
 				if _, err := gk.Keeper.AddDeposit(ctx, p.Id, proposer, dep); err != nil {
 					return nil, nil, "deposit: " + err.Error()
 				}
@@ -1255,9 +1297,9 @@ func (e *env) govBlock(out *hx.Out, specs []govSpec) {
 		bctx, _ := ctx.CacheContext()
 		saved := s.Ctx
 		s.Ctx = actx
-		da, sa, errA := runBlock(actx, func(b built) []sdk.Msg { return b.msgs })
+		da, sa, errA := runBlock(actx, func(b built) []sdk.Msg { return b.msgs }, false)
 		s.Ctx = bctx
-		db, sb, errB := runBlock(bctx, func(b built) []sdk.Msg { return b.ref })
+		db, sb, errB := runBlock(bctx, func(b built) []sdk.Msg { return b.ref }, true)
 		s.Ctx = saved
 		var shape []string
 		for _, sp := range specs {
@@ -1293,7 +1335,17 @@ func (e *env) govBlock(out *hx.Out, specs []govSpec) {
 			if sp.kind == "panic" {
 				k = "panic"
 			}
-			opw = append(opw, fmt.Sprintf("%d:%s:%s", sp.n, f, k))
+			hk := sp.hook
+			if hk == "" {
+				hk = "-"
+			}
+			if hooked {
+				opw = append(opw, fmt.Sprintf("%d:%s:%s:%s", sp.n, f, k, hk))
+				desc2 := map[bool]string{true: "msgfail", false: "msgok"}[sp.failIdx >= 0]
+				out.Count("govhook:active:" + hk + ":" + desc2)
+			} else {
+				opw = append(opw, fmt.Sprintf("%d:%s:%s", sp.n, f, k))
+			}
 			paid := 0
 			for _, r := range props[i].recipients {
 				if s.App.BankKeeper.GetBalance(actx, r, fxtypes.DefaultDenom).IsPositive() {
@@ -1305,7 +1357,15 @@ func (e *env) govBlock(out *hx.Out, specs []govSpec) {
 					paid++
 				}
 			}
-			obs = append(obs, fmt.Sprintf("%s:%d", stName[sa[i]], paid))
+			if hooked {
+				hw := s.App.BankKeeper.GetBalance(actx, hookMarks[i], fxtypes.DefaultDenom).IsPositive()
+				obs = append(obs, fmt.Sprintf("%s:%d:%s", stName[sa[i]], paid, map[bool]string{true: "1", false: "0"}[hw]))
+				if sp.hook == "ok" && !hw {
+					out.Violate(fmt.Sprintf("gov-block: proposals [%s]: the writes of the SUCCESSFUL AfterProposalVotingPeriodEnded hook of proposal %d are not in the state", desc, i+1))
+				}
+			} else {
+				obs = append(obs, fmt.Sprintf("%s:%d", stName[sa[i]], paid))
+			}
 			want := govv1.StatusPassed
 			if sp.failIdx >= 0 {
 				want = govv1.StatusFailed
@@ -1320,7 +1380,16 @@ func (e *env) govBlock(out *hx.Out, specs []govSpec) {
 				out.Count("govblock:kind:" + sp.kind)
 			}
 		}
-		out.Emit("pgovb "+strings.Join(opw, " "), "flow=nil "+strings.Join(obs, " "))
+		if hooked {
+			out.Emit("pgovh "+strings.Join(opw, " "), "flow=nil "+strings.Join(obs, " "))
+			var hs []string
+			for _, sp := range specs {
+				hs = append(hs, map[string]string{"": "-", "ok": "hook-ok", "fail": "hook-fails"}[sp.hook])
+			}
+			desc += " hooks " + strings.Join(hs, ",")
+		} else {
+			out.Emit("pgovb "+strings.Join(opw, " "), "flow=nil "+strings.Join(obs, " "))
+		}
 		out.Count("govblock:" + desc)
 		out.Nontrivial("govblock|" + strings.Join(opw, " "))
 		if len(extra) > 0 {
